@@ -160,7 +160,7 @@ def main(ctx: Ctx):
     # ---- real server: unknown context id; server killed around the handshake
     sess = inject.Session()
     try:
-        from pyworkers.remote_server import spawn_server
+        from common import spawn_server
         for cls in (RemoteWorker, PersistentRemoteWorker):
             sess.write_conf(None)
             srv = spawn_server(('127.0.0.1', 0))
